@@ -131,6 +131,17 @@ Section DiffModel.
     | None => map (fun e => Added (fst e)) right
     end.
 
+  (** Applying a report to the path set of the left state (the reading of the
+      property: "applying the report to the left state yields the right state"):
+      drop the Deleted paths and the originals of renames, add the Added paths and
+      the targets of renames. *)
+  Definition removed (ds : list diff_entry) : list P :=
+    flat_map (fun e => match e with Deleted p => [p] | Renamed o _ => o | _ => [] end) ds.
+  Definition inserted (ds : list diff_entry) : list P :=
+    flat_map (fun e => match e with Added p => [p] | Renamed _ r => r | _ => [] end) ds.
+  Definition apply_diff (ds : list diff_entry) (ps : list P) : list P :=
+    filter (fun p => negb (pmem p (removed ds))) ps ++ inserted ds.
+
   (** An object's committed history: the states of v1, v2, ... (BTreeMap<VersionNum, Version>;
       VersionNum is compared by number only, types.rs:407-431). *)
   Definition history := list state.
@@ -237,6 +248,7 @@ Arguments aget {D} deqb {V}. Arguments aset {D} deqb {V}. Arguments adel {D} deq
 Arguments sort_insert {P}. Arguments sort_paths {P}.
 Arguments left_step {P D}. Arguments right_step {P D}. Arguments flush {P D}.
 Arguments left_loop {P D}. Arguments right_loop {P D}.
+Arguments removed {P}. Arguments inserted {P}. Arguments apply_diff {P}.
 Arguments diff {P D}. Arguments diff_versions {P D}. Arguments diff_staged {P D}.
 Arguments file_versions_loop {P D}. Arguments list_file_versions {P D}.
 Arguments same_in {P D}. Arguments cs_walk {P D}. Arguments last_updates {P D}.
